@@ -5,6 +5,7 @@ import (
 	"fmt"
 	"os"
 	"path/filepath"
+	"slices"
 	"strings"
 	"testing"
 	"time"
@@ -63,6 +64,40 @@ func c13Record(in c13Input, workdir string, tags []string) (Record, *c13Case) {
 		}
 		if wf {
 			rec.Tags = append(rec.Tags, "hist-write-fails")
+		}
+	case "life":
+		if c.Life != nil {
+			rec.Nontrivial = c.Life.RS != nil
+			obs["second_start_ok"], obs["second_start_writes"] = c.Life.OK2, len(c.Life.Writes2)
+			fetched := 0
+			for _, a := range c.Life.Ans2 {
+				if a.Has && !slices.Contains(in.Names, a.Name) {
+					fetched++ // a NEW name the service could give before the context ended
+				}
+			}
+			rec.Tags = append(rec.Tags, "life-failed-middle-start")
+			switch {
+			case in.CtxDone2:
+				rec.Tags = append(rec.Tags, "life-context-already-ended")
+			case in.Dead2:
+				rec.Tags = append(rec.Tags, "life-service-unreachable")
+			case fetched > 0:
+				rec.Tags = append(rec.Tags, "life-some-new-names-fetched")
+			default:
+				rec.Tags = append(rec.Tags, "life-new-name-missing")
+			}
+		}
+	case "retain":
+		if c.Retain != nil {
+			rec.Nontrivial = len(c.Retain.At) >= 2
+			obs["retained_payloads"], obs["no_longer_parse"] = len(c.Retain.At), c.Retain.Bad
+			rec.Tags = append(rec.Tags, "retain-"+in.Retain)
+			for _, op := range in.Ops {
+				if op.WriteFail {
+					rec.Tags = append(rec.Tags, "retain-with-failing-write")
+					break
+				}
+			}
 		}
 	case "slow":
 		if c.Slow != nil {
@@ -178,6 +213,25 @@ func c13SelfTests(rec Record, c *c13Case) []Record {
 		cc.Conc = &n
 		return true
 	})
+	alter("the failed start wrote its null stubs", func(cc *c13Case) bool {
+		if cc.Life == nil || cc.Life.RS == nil {
+			return false
+		}
+		n := *cc.Life
+		n.Writes2 = append(append([]*c13J{}, cc.Life.Writes2...), c13Obj(c13KV{[]byte("gamma"), c13Null()}))
+		cc.Life = &n
+		return true
+	})
+	alter("a retained payload changed after it was written", func(cc *c13Case) bool {
+		if cc.Retain == nil || len(cc.Retain.At) == 0 {
+			return false
+		}
+		n := *cc.Retain
+		n.Now = append([]*c13J{}, cc.Retain.Now...)
+		n.Now[0] = c13Obj(c13KV{[]byte("scribbled"), c13Null()})
+		cc.Retain = &n
+		return true
+	})
 	alter("a stale document landing last", func(cc *c13Case) bool {
 		if cc.Slow == nil || len(cc.Slow.Landed) < 2 {
 			return false
@@ -233,9 +287,9 @@ func runC13(o Opts) {
 	nself := map[string]int{}
 	emit := func(in c13Input, tags []string, corpus string) {
 		switch in.Kind {
-		case "hist", "doc", "conc", "slow", "fcfile":
+		case "hist", "doc", "conc", "slow", "life", "retain", "fcfile":
 			// the real store runs in a worker process: a crash or hang costs this one input only
-			want := corpus == "" && o.Replay == "" && ((in.Kind == "hist" && nself["hist"] < 4) || (in.Kind == "conc" && nself["conc"] < 2) || (in.Kind == "slow" && nself["slow"] < 2))
+			want := corpus == "" && o.Replay == "" && ((in.Kind == "hist" && nself["hist"] < 4) || (in.Kind == "conc" && nself["conc"] < 2) || (in.Kind == "slow" && nself["slow"] < 2) || (in.Kind == "life" && nself["life"] < 2) || (in.Kind == "retain" && nself["retain"] < 2))
 			recs := pool.do(c13Job{In: in, Tags: tags, Corpus: corpus, Self: want}, 30*time.Second)
 			id := out.n
 			out.Emit(recs[0])
@@ -284,12 +338,12 @@ func runC13(o Opts) {
 	for _, in := range readCorpus[c13Input](o.Corpus) {
 		emit(in, []string{"corpus"}, "corpus")
 	}
-	nh, nd, nb, nc, ns, nf := 400, 900, 150, 64, 60, 150
+	nh, nd, nb, nc, ns, nf, nl, nr := 400, 900, 150, 64, 60, 150, 48, 80
 	if o.Tier == "thorough" {
-		nh, nd, nb, nc, ns, nf = 3000, 8000, 1500, 400, 600, 2000
+		nh, nd, nb, nc, ns, nf, nl, nr = 3000, 8000, 1500, 400, 600, 2000, 400, 800
 	}
 	if o.N > 0 {
-		nh, nd, nb, nc, ns, nf = o.N, o.N, o.N, o.N, o.N, o.N
+		nh, nd, nb, nc, ns, nf, nl, nr = o.N, o.N, o.N, o.N, o.N, o.N, o.N, o.N
 	}
 	r := NewRand(o.Seed, 13)
 	for i := 0; i < nh; i++ {
@@ -320,6 +374,16 @@ func runC13(o Opts) {
 			v.Ops[k].WriteFail = true
 			emit(v, []string{"hist-kth-write-fails"}, "")
 		}
+	}
+	// three lifetimes on one cache, the middle one a start that fails
+	rl := NewRand(o.Seed, 1335)
+	for i := 0; i < nl; i++ {
+		emit(c13GenLife(rl, i), nil, "")
+	}
+	// caches that retain the slice they are given
+	rr := NewRand(o.Seed, 1336)
+	for i := 0; i < nr; i++ {
+		emit(c13GenRetain(rr, i), nil, "")
 	}
 	// cache writes that take virtual seconds to minutes (synctest), then succeed
 	rs := NewRand(o.Seed, 1333)
